@@ -1,19 +1,25 @@
 #!/bin/sh
-# dev helper: run every staged/kept seeded change against the check of its property; print caught / missed
-# usage: tools/seed_eval.sh [PID ...]
+# dev helper: run every kept seeded change (/verif/seeded/<PID>/<k>/patch.diff) against checks; print caught / missed.
+# usage: tools/seed_eval.sh [-a "PIDs to check against every seed"] [PID[/k] ...]
 cd /verif
-DIR=seeded; [ -d seeded_staging ] && DIR=seeded_staging
-PIDS="$@"; [ -z "$PIDS" ] && PIDS=$(ls $DIR)
-for p in $PIDS; do
-  for d in /verif/$DIR/$p/change*.diff; do
+ALSO=""
+if [ "$1" = "-a" ]; then ALSO="$2"; shift 2; fi
+SEL="$@"; [ -z "$SEL" ] && SEL=$(ls -d seeded/C* | sed 's,seeded/,,')
+for sel in $SEL; do
+  case "$sel" in */*) DIRS="seeded/$sel";; *) DIRS=$(ls -d seeded/$sel/*/);; esac
+  for dd in $DIRS; do
+    dd=${dd%/}; p=$(echo $dd | cut -d/ -f2); k=$(basename $dd)
     D="$(mktemp -d /tmp/pyvc_scratch.XXXXXX)"
     git -C /repo worktree add -q --detach "$D" HEAD 2>/dev/null
-    if ( cd "$D" && git apply "$d" 2>/dev/null ); then
-      OUT=$(cd /verif && PYVC_REPO_SRC="$D/src" timeout 1200 ./check "$p" 2>&1); RC=$?
-      V=$(echo "$OUT" | grep -c '^VIOLATION')
-      echo "$p $(basename $d) exit=$RC violations=$V $(echo "$OUT" | grep -m1 'obligation' | cut -c1-110)"
+    if ( cd "$D" && git apply "/verif/$dd/patch.diff" 2>/dev/null ); then
+      for q in $p $ALSO; do
+        [ "$q" = "$p" ] && [ "$q" != "$(echo $p $ALSO | cut -d' ' -f1)" ] && continue
+        OUT=$(cd /verif && PYVC_REPO_SRC="$D/src" timeout 2400 ./check "$q" 2>&1); RC=$?
+        V=$(echo "$OUT" | grep -c '^VIOLATION')
+        echo "seed=$p/$k check=$q exit=$RC violations=$V $(echo "$OUT" | grep -m1 '   obligation' | cut -c1-120)"
+      done
     else
-      echo "$p $(basename $d) PATCH-DOES-NOT-APPLY"
+      echo "seed=$p/$k PATCH-DOES-NOT-APPLY"
     fi
     git -C /repo worktree remove --force "$D"
   done
